@@ -249,6 +249,10 @@ func (in *Interp) newMapIter(m *mapObj) *mapIter {
 		}
 		if in.path != nil && in.path.nondetMapOrder && len(it.order) > 1 {
 			it.order = in.permute(it.order)
+		} else if in.path != nil && in.path.reverseMapOrder {
+			for i, j := 0, len(it.order)-1; i < j; i, j = i+1, j-1 {
+				it.order[i], it.order[j] = it.order[j], it.order[i]
+			}
 		}
 	}
 	return it
